@@ -1,72 +1,42 @@
-"""Per-property check plans.  Each function: build, generate, model-check (M), validate traces (T),
-canary, evidence.  Nothing here decides a property: TLC does."""
-import json
+"""Registry of the per-property check plans (lib/checks/cXX.py).  Each plan: build, generate,
+model-check (M), validate traces (T), canary, evidence.  Nothing here decides a property: TLC does."""
+import importlib
 import os
+import pkgutil
 
 import core
-from core import Report, ToolError, log
+from core import ToolError, log
 
-TRUSTED = ["TLC 2026.09.04 + CommunityModules (Json, IOUtils, Bitwise)",
-           "harness/src/enc projections (exercised by the canary on every run)",
-           "driver: counting and mapping TLC verdicts to exit codes"]
+import checks
 
-
-def _first_with(evs, pred, start=5):
-    for i in list(range(start, len(evs))) + list(range(0, start)):
-        if pred(evs[i]):
-            return i
-    return None
-
-
-# ---------------------------------------------------------------------------------------------
-def c01(seed, tier):
-    rep = Report("C01", seed, tier)
-    core.build_harness()
-    core.mc(rep, "mc/MC_BV.tla", "MC_BV.cfg", workers=8)
-    meta = core.gen("C01", seed, tier, shards=8 if tier == "quick" else 16)
-    core.validate_traces(rep, "trace/T_C01.tla", meta["files"], parallel=8, timeout=3600)
-
-    def mutate(evs):
-        i = _first_with(evs, lambda e: e["res"])
-        if i is not None:
-            evs[i]["res"][0] ^= 1
-        return i
-    core.canary(rep, "trace/T_C01.tla", meta["files"][0], mutate)
-    rep.traces, rep.events = meta["cases"], meta["events"]
-    return rep.finish("model_checking", {
-        "distinct_nontrivial": meta["distinct_nontrivial"],
-        "rule": "every Bitvector::bin_op/un_op/cast/subpiece call is one event (operands, result, BitvectorDomain result, "
-                "Expression::bytesize); non-trivial = the result is a value different from both operands and from zero; "
-                "distinct = distinct event hashes",
-        "samples": meta["samples"], "exhaustive": bool(meta["extra"].get("width1_exhaustive")),
-        "width1_pairs_per_op": meta["extra"].get("width1_pairs_per_op"),
-        "mc_runs": rep.cov.get("mc_runs"), "trusted_base": TRUSTED,
-    }, ["widths 1,2,4,8,16 bytes; width 1 %s; wider widths boundary x boundary plus random operands" %
-        ("exhaustive over all 65536 pairs of every binary operation" if tier == "thorough" else "33x33 boundary/random grid per operation (thorough tier: all 65536 pairs)"),
-        "BV.tla is the reference; it is cross-checked against BVInt.tla on all 1-byte operands by MC_BV in the same run",
-        "shift amounts wider than 8 bytes and BoolNegate of non-boolean inputs are outside the input class (the code asserts)"])
-
-
-CHECKS = {"C01": c01}
-
-TRACE_SPEC = {"C01": "trace/T_C01.tla"}
+MODULES = {}
+for _m in pkgutil.iter_modules(checks.__path__):
+    if _m.name.startswith("c") and _m.name[1:].isdigit():
+        mod = importlib.import_module("checks." + _m.name)
+        if hasattr(mod, "check"):
+            MODULES[_m.name.upper()] = mod
+CHECKS = {k: m.check for k, m in MODULES.items()}
 
 
 def replay(prop, path, seed, tier):
     """Re-execute the recorded inputs on the real code (current working tree) and re-validate with TLC."""
+    mod = MODULES[prop]
+    if hasattr(mod, "replay"):
+        return mod.replay(path, seed, tier)
     core.build_harness()
     out = os.path.join(core.BUILD, "traces", prop + "_replay")
     p = core.sh([core.BIN, "replay", prop, path, "--out", out], cwd=core.ROOT, check=False)
     if p.returncode != 0:
         raise ToolError("replay failed: " + p.stdout[-2000:])
-    spec = TRACE_SPEC[prop]
+    spec = mod.TRACE_SPEC
     f = os.path.join(out, "shard00.ndjson")
-    r = core.tlc(spec, cfg=os.path.basename(spec).replace(".tla", ".cfg"), trace=f, workers=1)
+    r = core.tlc(spec, cfg=getattr(mod, "TRACE_CFG", os.path.basename(spec).replace(".tla", ".cfg")), trace=f, workers=1,
+                 deque=getattr(mod, "TRACE_DEQUE", False))
     if r.error:
         raise ToolError(r.error)
     if r.bad or r.unconsumed or r.invariant:
         print("VIOLATION property=%s replay=%s" % (prop, path))
-        log(r.out[-1500:])
+        log("\n".join(r.badlines[:5]) or r.out[-1500:])
         return 1
     print("replay accepted: the recorded inputs no longer violate %s" % prop)
     return 0
